@@ -211,16 +211,20 @@ func main() {
 		os.Exit(1)
 	}
 
-	gens := []func(repo string) (*leanFile, error){genIsolation}
+	gens := []namedGen{{"Isolation.lean", genIsolation}}
 	gens = append(gens, extraGens...)
 	failed := false
 	for _, g := range gens {
-		lf, err := g(*repo)
+		// a generator that does not recognise the code it translates leaves the previous file in place and a
+		// marker `<file>.failed` with the reason next to it: the check decides per property what that means
+		marker := filepath.Join(*out, g.name+".failed")
+		lf, err := g.f(*repo)
 		if err != nil {
-			fmt.Fprintln(os.Stderr, "extract:", err)
-			failed = true
+			fmt.Println("FAILED", g.name+":", err)
+			os.WriteFile(marker, []byte(err.Error()+"\n"), 0o644)
 			continue
 		}
+		os.Remove(marker)
 		hdr := "/- GENERATED by /verif/go/cmd/extract from /repo on every run. Do not edit. -/\n"
 		changed, err := writeIfChanged(filepath.Join(*out, lf.name), append([]byte(hdr), lf.buf.Bytes()...))
 		if err != nil {
@@ -236,7 +240,12 @@ func main() {
 	}
 }
 
-var extraGens []func(repo string) (*leanFile, error)
+type namedGen struct {
+	name string
+	f    func(repo string) (*leanFile, error)
+}
+
+var extraGens []namedGen
 
 // ---------------------------------------------------------------------------------------
 // isolationlevels.go
@@ -340,6 +349,9 @@ func genIsolation(repo string) (*leanFile, error) {
 	lf.pf("\ninductive StringShape | viaToGo | unknown\nderiving DecidableEq, Repr\n")
 	lf.pf("def stringShape : StringShape := .%s\n", strShape)
 	lf.pf("\nend Dblib.Gen.Isolation\n")
+	if fromShape == "unknown" || kind == "unknown" || strShape == "unknown" {
+		return nil, fmt.Errorf("isolationlevels.go: shape not recognised (ASEIsolationLevelFromGo: %s, ToGo: %s, String: %s)", fromShape, kind, strShape)
+	}
 	return lf, nil
 }
 
